@@ -30,6 +30,7 @@ func init() {
 }
 
 type c11Obj struct {
+	Div   int
 	Id    int
 	Name  string
 	Kind  string
@@ -54,6 +55,7 @@ clean = replace(joined, /[0-9]+/, "#");
 last = clean;
 function weight(c, s) { local w; w = c * 2; if (s > 0.5) { w = w + 1; } return w; }
 w = weight(Count, Score);
+ratio = 100 / Div;
 return (w > 6 && Name ~= /e/) || (len(parts) > 2 && between(Count, 2, 4)) || Kind == "other";
 `
 
@@ -61,7 +63,11 @@ func c11MakeObj(r *rand.Rand, id int) c11Obj {
 	names := []string{"alice", "Adam", "bob", "eve", "Zed", "anne", "Erin", "", "狐犬"}
 	kinds := []string{"x1", "xylo", "plain", "other", "misc", ""}
 	tags := []string{"", "a", "b,a", "c,b,a,1", "z9,y8,x7", "t1,t22,t333,t4444"}
-	return c11Obj{Id: id, Name: names[r.Intn(len(names))], Kind: kinds[r.Intn(len(kinds))], Tags: tags[r.Intn(len(tags))], Count: r.Intn(7), Score: r.Float64()}
+	div := 1 + r.Intn(5)
+	if r.Intn(8) == 0 {
+		div = 0 // this run ends with a division-by-zero error (after its counter update)
+	}
+	return c11Obj{Div: div, Id: id, Name: names[r.Intn(len(names))], Kind: kinds[r.Intn(len(kinds))], Tags: tags[r.Intn(len(tags))], Count: r.Intn(7), Score: r.Float64()}
 }
 
 type c11Result struct {
@@ -116,12 +122,13 @@ func c11Worker(args []string) {
 			break
 		}
 		ref := make([]bool, N)
+		refErr := make([]bool, N)
 		for i := range objs {
 			b, err := refE.Run(objs[i])
-			if err != nil {
-				res.Errors = append(res.Errors, "sequential run: "+err.Error())
+			if (err != nil) != (objs[i].Div == 0) {
+				res.Errors = append(res.Errors, fmt.Sprintf("sequential run of %+v: err=%v", objs[i], err))
 			}
-			ref[i] = b
+			ref[i], refErr[i] = b, err != nil
 		}
 		// shared evaluator
 		type noteRec struct {
@@ -235,8 +242,10 @@ func c11Worker(args []string) {
 			res.OwnMismatch = append(res.OwnMismatch, ownMismatch[g]...)
 		}
 		for i := range objs {
-			if errs[i] != nil {
-				res.Errors = append(res.Errors, fmt.Sprintf("round %d object %d: %v", round, i, errs[i]))
+			if (errs[i] != nil) != refErr[i] {
+				res.Errors = append(res.Errors, fmt.Sprintf("round %d object %+v: concurrent run err=%v, sequential run failed=%v", round, objs[i], errs[i], refErr[i]))
+			} else if errs[i] != nil && !strings.Contains(errs[i].Error(), "division by zero") {
+				res.Errors = append(res.Errors, fmt.Sprintf("round %d object %+v: concurrent run failed with %v, sequentially it fails with a division by zero", round, objs[i], errs[i]))
 			} else if got[i] != ref[i] {
 				res.VerdictMismatch = append(res.VerdictMismatch, fmt.Sprintf("round %d object %+v: concurrent verdict %v, sequential verdict %v", round, objs[i], got[i], ref[i]))
 			}
@@ -314,7 +323,7 @@ func c11(c *ev.Ctx) {
 	raceReports := map[string]int{}
 	nRace := 0
 	for p := 0; p < procs; p++ {
-		cmd := exec.Command("timeout", "-s", "QUIT", "1500", self, "worker", "c11", fmt.Sprint(c.Seed*100+int64(p)), fmt.Sprint(per), fmt.Sprint(G), fmt.Sprint(runsEach))
+		cmd := exec.Command("timeout", "-s", "QUIT", fmt.Sprint(c.Pick(240, 1500)), self, "worker", "c11", fmt.Sprint(c.Seed*100+int64(p)), fmt.Sprint(per), fmt.Sprint(G), fmt.Sprint(runsEach))
 		cmd.Env = append(os.Environ(), fmt.Sprintf("GORACE=halt_on_error=0 log_path=%s.%d", logBase, p))
 		errf, _ := os.Create(filepath.Join(work, fmt.Sprintf("stderr.%d", p)))
 		cmd.Stderr = errf
@@ -324,7 +333,14 @@ func c11(c *ev.Ctx) {
 		if jerr := json.Unmarshal(out, &res); jerr != nil {
 			eb, _ := os.ReadFile(filepath.Join(work, fmt.Sprintf("stderr.%d", p)))
 			head := clip(string(eb), 1500)
-			if strings.Contains(head, "fatal error") || strings.Contains(head, "panic:") {
+			full := string(eb)
+			blocked := strings.Count(full, "sync.(*Mutex).Lock")
+			running := strings.Count(full, "vm.(*VM).Run(")
+			if strings.Contains(full, "SIGQUIT") && blocked >= G-2 && running == 0 {
+				// state-based verdict, not a time-based one: every worker goroutine waits for
+				// the evaluator's lock and nobody is inside the machine
+				c.Violation(fmt.Sprintf("proc/%d", p), "deadlock under concurrent use", map[string]interface{}{"summary": fmt.Sprintf("the workload stopped making progress: %d goroutines are blocked in Mutex.Lock and none is executing the machine (the evaluator's lock was never released)", blocked), "stderr": clip(full, 6000)})
+			} else if strings.Contains(head, "fatal error") || strings.Contains(head, "panic:") {
 				c.Violation(fmt.Sprintf("proc/%d", p), "process died under concurrent use", map[string]interface{}{"summary": "the workload process died: " + head, "stderr": clip(string(eb), 6000)})
 			} else {
 				c.Inconclusive(fmt.Sprintf("workload process %d gave no result (err=%v): %s", p, err, clip(head, 300)))
